@@ -33,6 +33,7 @@ func Shapes(thorough bool) []Shape {
 		{Name: "set(a);set(b)", Ops: []txnh.Op{op("set", "a"), op("set", "b"), c}},
 		{Name: "set(a);delete(b);insert(c)", Ops: []txnh.Op{op("set", "a"), op("delete", "b"), op("insert", "c"), c}, Seed: []string{"b", "base"}},
 		{Name: "lock(a);set(b)", Ops: []txnh.Op{op("lock", "a"), op("set", "b"), c}, LockOnlyPrimary: true},
+		{Name: "insert(c);delete(c);set(a);set(b)", Ops: []txnh.Op{op("insert", "c"), op("delete", "c"), op("set", "a"), op("set", "b"), c}},
 		{Name: "P:lock(a);set(a)", Pess: true, Ops: []txnh.Op{op("lock", "a"), op("set", "a"), c}},
 		{Name: "P:lock(c);set(c);lock(a);set(a)", Pess: true, Ops: []txnh.Op{op("lock", "c"), op("set", "c"), op("lock", "a"), op("set", "a"), c}},
 	}
